@@ -264,6 +264,30 @@ func (w *world) wronglyDropped(t *track, s *mempool.VerifSnapshot, next map[comm
 	return w.N.App.GetBalance(sd.Addr).Cmp(plentiful) > 0 && w.N.App.VerifStoreState().GetBalance(sd.Addr).Cmp(plentiful) > 0
 }
 
+// validQueued: t is a cheap plain transfer of a sender with plenty of funds (committed and speculative) whose
+// nonce IS the sender's next executable nonce after the operation: it is executable, whether or not the offered
+// list has room for it right now, so it has to stay (queued or offered).
+func (w *world) validQueued(t *track, next map[common.Address]uint64) bool {
+	sd := w.senderOf(t)
+	if sd == nil || !t.HasNonce || t.Kind != "plain" {
+		return false
+	}
+	ptx, ok := t.tx.(*types.Transaction)
+	if !ok || ptx.Value().Cmp(cheap) >= 0 || len(ptx.Data()) > 0 {
+		return false
+	}
+	exp, seen := next[sd.Addr]
+	if !seen {
+		exp = w.N.App.VerifStoreState().GetNonce(sd.Addr)
+	}
+	if t.Nonce != exp {
+		// a higher nonce is not executable (the run in front of it broke): the pool drops such transactions together
+		// with the failing predecessor, which the property does not forbid
+		return false
+	}
+	return w.N.App.GetBalance(sd.Addr).Cmp(plentiful) > 0 && w.N.App.VerifStoreState().GetBalance(sd.Addr).Cmp(plentiful) > 0
+}
+
 func (w *world) checkMembership(s *mempool.VerifSnapshot, op opCtx, after string, next map[common.Address]uint64) {
 	loc := map[common.Hash]string{}
 	for _, tx := range s.Good {
@@ -317,6 +341,15 @@ func (w *world) checkMembership(s *mempool.VerifSnapshot, op opCtx, after string
 			if t.Loc == "future" && op.kind != "round" && w.wronglyDropped(t, s, next) {
 				w.violation("promotion/executable-dropped-instead-of-promoted",
 					fmt.Sprintf("queued tx %s of rich sender %s has the next executable nonce %d and the good list has room, but after %s it is neither offered, queued nor committed", short(h), w.fromStr(t), t.Nonce, after), s,
+					map[string]interface{}{"sender_history": w.slice(w.senderOf(t).Addr)})
+				return
+			}
+			// A promotion that runs out of room must leave the rest of the run queued: the cheap plain transaction of a
+			// rich sender that carries the sender's next executable nonce stays executable, and no cap evicts queued
+			// transactions while the submitted transaction itself went to the offered list.
+			if t.Loc == "future" && op.kind == "submit" && op.sender >= 0 && op.sender == t.Sender && loc[op.hash] == "good" && w.validQueued(t, next) {
+				w.violation("promotion/valid-queued-tx-dropped-at-promotion",
+					fmt.Sprintf("queued tx %s of rich sender %s (nonce %d = the next executable nonce) is neither offered, queued nor committed after %s, whose own transaction was offered", short(h), w.fromStr(t), t.Nonce, after), s,
 					map[string]interface{}{"sender_history": w.slice(w.senderOf(t).Addr)})
 				return
 			}
